@@ -25,10 +25,14 @@ type tierCfg struct {
 }
 
 func tierOf(prop, tier string) tierCfg {
+	// Run counts decide what a seed explores (the same runs on any machine);
+	// the wall-clock budget is a safety cap, reported in the evidence when it
+	// is what ended the batch.
+	quick := map[string]int64{"C13": 600000, "C14": 28000, "C15": 110000}
 	if tier == "thorough" {
-		return tierCfg{Runs: 1 << 40, Budget: 900, DetRuns: 600, Fidelity: 4000, ShrinkSecs: 120, ShrinkTries: 20000}
+		return tierCfg{Runs: quick[prop] * 20, Budget: 1500, DetRuns: 600, Fidelity: 4000, ShrinkSecs: 120, ShrinkTries: 20000}
 	}
-	return tierCfg{Runs: 1 << 40, Budget: 45, DetRuns: 40, Fidelity: 150, ShrinkSecs: 30, ShrinkTries: 4000}
+	return tierCfg{Runs: quick[prop], Budget: 240, DetRuns: 40, Fidelity: 150, ShrinkSecs: 30, ShrinkTries: 4000}
 }
 
 // ---------------------------------------------------------------- known findings
@@ -490,6 +494,8 @@ func tail(s string, n int) string {
 	return s
 }
 
+var errDigestTimeout = fmt.Errorf("digest timed out")
+
 func determinismSelfTest(self, prop string, seed uint64, runs int64) (bool, string) {
 	type res struct {
 		out string
@@ -503,12 +509,33 @@ func determinismSelfTest(self, prop string, seed uint64, runs int64) (bool, stri
 		go func(i int, gmp string) {
 			defer wg.Done()
 			cmd := exec.Command(self, "digest", "-prop", prop, "-seed", fmt.Sprint(seed), "-from", "0", "-to", fmt.Sprint(runs))
-			cmd.Env = append(os.Environ(), "GOMAXPROCS="+gmp)
-			out, err := cmd.Output()
-			results[i] = res{string(out), err}
+			cmd.Env = append(os.Environ(), "GOMAXPROCS="+gmp, "GOMEMLIMIT=3GiB")
+			var ob bytes.Buffer
+			cmd.Stdout = &ob
+			done := make(chan error, 1)
+			if err := cmd.Start(); err != nil {
+				results[i] = res{"", err}
+				return
+			}
+			go func() { done <- cmd.Wait() }()
+			select {
+			case err := <-done:
+				results[i] = res{ob.String(), err}
+			case <-time.After(time.Duration(60+runs) * time.Second):
+				cmd.Process.Kill()
+				<-done
+				results[i] = res{"", errDigestTimeout}
+			}
 		}(i, gmp)
 	}
 	wg.Wait()
+	for _, r := range results {
+		if r.err == errDigestTimeout {
+			// a case that does not end: the workers' watchdog reports it with
+			// its case; nothing to compare here
+			return true, "skipped: a run did not finish within the self-test's time limit (see the watchdog verdict of the workers)"
+		}
+	}
 	for i, r := range results {
 		if r.err != nil {
 			return false, fmt.Sprintf("digest process %d failed: %v", i, r.err)
